@@ -193,7 +193,7 @@ def _container(form, items, numeric):
     return list(items)
 
 
-def make_reaction(cls, reactants, rs, products, ps, ts, tss, forms=None):
+def make_reaction(cls, reactants, rs, products, ps, ts, tss, forms=None, keep=None):
     """forms: {'r': f, 'p': f, 't': f} with f in list | tuple | ndarray (coefficients only) | single
     (one species given without a container)"""
     forms = forms or {}
@@ -204,7 +204,75 @@ def make_reaction(cls, reactants, rs, products, ps, ts, tss, forms=None):
     if ts:
         kw['transition_state'] = _container(forms.get('t'), list(ts), False)
         kw['transition_state_stoich'] = _container(forms.get('t'), list(tss), True)
+    if keep is not None:
+        keep.update(kw)                    # the containers the caller still holds
     return _cls(cls)(**kw)
+
+
+# --------------------------------------------------------------------------------------
+# second use: evaluate, edit a public attribute in place, evaluate again
+# --------------------------------------------------------------------------------------
+EDITS = ['element of reactants_stoich', 'element of products_stoich', 'element of transition_state_stoich',
+         "the caller's own coefficient list", 'species replaced in reactants', 'species replaced in products',
+         're-assigned through the setter']
+
+
+def public_sides(rxn):
+    ts = rxn.transition_state
+    return {'r': list(zip(rxn.reactants, rxn.reactants_stoich)), 'p': list(zip(rxn.products, rxn.products_stoich)),
+            't': list(zip(ts, rxn.transition_state_stoich)) if ts is not None else []}
+
+
+def second_use(rnd, rxn, cls, glob, blocks, kw, bkeys, held, q, opts, other_species, which):
+    """rxn has been evaluated already.  Edit one public attribute in place, then return the events of the second
+    evaluation (or None when this edit does not apply to this object) and the name of the edit."""
+    attr = {'element of reactants_stoich': 'reactants_stoich', 'element of products_stoich': 'products_stoich',
+            'element of transition_state_stoich': 'transition_state_stoich'}
+    new = rnd.choice([0.5, 1.5, 2.0, 3.0, 0.25])
+    if which in attr:
+        lst = getattr(rxn, attr[which])
+        if lst is None or isinstance(lst, tuple) or not hasattr(lst, '__setitem__'):
+            return None
+        i = rnd.randrange(len(lst))
+        lst[i] = new if float(lst[i]) != new else new + 0.25
+    elif which == "the caller's own coefficient list":
+        key = rnd.choice(['reactants_stoich', 'products_stoich'])
+        lst = (held or {}).get(key)
+        if not isinstance(lst, list):
+            return None
+        i = rnd.randrange(len(lst))
+        lst[i] = new if float(lst[i]) != new else new + 0.25
+    elif which.startswith('species replaced'):
+        lst = rxn.reactants if which.endswith('reactants') else rxn.products
+        if not isinstance(lst, list) or other_species is None:
+            return None
+        lst[rnd.randrange(len(lst))] = other_species
+    else:
+        side = rnd.choice(['reactants_stoich', 'products_stoich'] +
+                          (['transition_state_stoich'] if rxn.transition_state is not None else []))
+        old = getattr(rxn, side)
+        setattr(rxn, side, [new + 0.25 * j for j in range(len(old))])
+    sides = public_sides(rxn)
+    rec = Recorder(rxn, cls, sides, glob, blocks, kw, bkeys, rnd)
+    fresh = make_reaction(cls, [a for a, _ in sides['r']], [float(b) for _, b in sides['r']],
+                          [a for a, _ in sides['p']], [float(b) for _, b in sides['p']],
+                          [a for a, _ in sides['t']], [float(b) for _, b in sides['t']])
+    dl_name = DIMLESS[q]
+
+    def values(r):
+        out = [fdec(getattr(r, 'get_%s_state' % dl_name)(state=s_, **opts, **kw))
+               for s_ in ['reactants', 'products'] + (['ts'] if sides['t'] else [])]
+        for rev, act in COMBOS:
+            if act and not sides['t']:
+                continue
+            out.append(fdec(getattr(r, 'get_delta_' + dl_name)(rev=rev, act=act, **opts, **kw)))
+        return out
+    e = {'ev': 'edit', 'cls': cls, 'q': q, 'kind': 'prod' if q == 'q' else 'sum', 'what': which, 'kb': snapshot(kw)}
+    e['a'] = values(rxn)
+    e['ka'] = snapshot(kw)
+    e['b'] = values(fresh)
+    return [e, rec.quant(q, opts=opts, with_sp=(q != 'q' or all(float(4 * nu).is_integer() for s_ in sides
+                                                              for _, nu in sides[s_])))], which
 
 
 def reaction_string(sides, sdel, rdel, rnd):
@@ -511,9 +579,10 @@ def exec_spy(case):
     for s in ('r', 'p', 't'):
         if sides[s]:
             cov.add('containers given as %s' % (forms[s] if forms[s] != 'single' or len(sides[s]) == 1 else 'list'))
+    held = {}
     rxn = make_reaction(cls, [a for a, _ in sides['r']], [b for _, b in sides['r']],
                         [a for a, _ in sides['p']], [b for _, b in sides['p']],
-                        [a for a, _ in sides['t']], [b for _, b in sides['t']], forms)
+                        [a for a, _ in sides['t']], [b for _, b in sides['t']], forms, keep=held)
     gT, f = num_form(rnd, case['globT'])
     cov.add('T given as %s' % f)
     glob = {'T': gT}
@@ -593,6 +662,15 @@ def exec_spy(case):
         k = rnd.choice(hit)
         side = rnd.choice([s for s in sides if any(k == '%s_kwargs' % sp.name for sp, _ in sides[s])])
         events.append(rec.iso(q, side, k))
+    if case['cseed'] % 4 == 1:           # second use after an in-place edit (LAST: it changes the object)
+        start = case['cseed'] // 4
+        for j in range(len(EDITS)):
+            which = EDITS[(start + j) % len(EDITS)]
+            res = second_use(rnd, rxn, cls, glob, blocks, kw, bkeys, held, q, {}, obj(['Z']), which)
+            if res is not None:
+                events.extend(res[0])
+                cov.add('edit: %s | %s' % (which, cls))
+                break
     return events, mism, {'cls': cls, 'flavour': flavour.__name__, 'q': q, 'cov': sorted(cov | rec.cov)}
 
 
@@ -680,14 +758,16 @@ def exec_real(case):
         cov.add('from_string species_delimiter %r' % sdel), cov.add('from_string reaction_delimiter %r' % rdel)
         cov.add('from_string species given as %s' % type(sp_arg).__name__)
         construction = {'how': 'from_string', 'text': text, 'species_delimiter': sdel, 'reaction_delimiter': rdel}
+        held = None
     else:
         forms = {s_: rnd.choice(['list', 'list', 'tuple', 'ndarray', 'single']) for s_ in ('r', 'p', 't')}
         for s_ in ('r', 'p', 't'):
             if sides[s_]:
                 cov.add('containers given as %s' % (forms[s_] if forms[s_] != 'single' or len(sides[s_]) == 1
                                                     else 'list'))
+        held = {}
         rxn = make_reaction(cls, [a for a, _ in R], [b for _, b in R], [a for a, _ in P], [b for _, b in P],
-                            [a for a, _ in T], [b for _, b in T], forms)
+                            [a for a, _ in T], [b for _, b in T], forms, keep=held)
         construction = {'how': 'constructor', 'forms': forms}
     # conditions: T, P as float / int / numpy scalars; ordinary values and the special ones (default
     # temperature, exactly on the bounds of the polynomial species, round numbers)
@@ -787,6 +867,24 @@ def exec_real(case):
         q = rnd.choice([x for x in qs if x != 'q' or quarter])
         opts = {'include_ZPE': False} if q in ('q', 'E') else {}
         emit(lambda: rec.iso(q, side, k, opts=opts), q + '/iso')
+    # second use of the same object after an in-place edit of a public attribute (LAST: it changes the object)
+    if case['cseed'] % 5 < 2:
+        q2 = rnd.choice(qs)
+        opts2 = {'include_ZPE': False} if q2 in ('q', 'E') else {}
+        spare = make_species(rnd, rnd.choice([n for n in REAL_NAMES if n not in present]), rnd.choice(kinds))
+        start = case['cseed'] // 5
+        for j in range(len(EDITS)):
+            which = EDITS[(start + j) % len(EDITS)]
+            try:
+                res = second_use(rnd, rxn, cls, glob, blocks, kw, bkeys, held, q2, opts2, spare, which)
+            except NonFinite:
+                skipped.append(q2 + '/edit')
+                break
+            if res is not None:
+                events.extend(res[0])
+                cov.add('edit: %s | %s' % (which, cls))
+                info['edit'] = which
+                break
     info['skipped_nonfinite'] = skipped
     info['cov'] = sorted(cov | rec.cov)
     return events, [], info
@@ -928,6 +1026,9 @@ def _exercise(ev, counts):
     if ev['ev'] == 'iso':
         inc('RouteIsolation')
         return
+    if ev['ev'] == 'edit':
+        inc('EditedEqualsFresh')
+        return
     if ev['ev'] == 'cycle':
         k = 'HessCycle | %s' % ('closed' if ev['closed'] else 'net reaction')
         counts[k] = counts.get(k, 0) + 1
@@ -1012,6 +1113,7 @@ def _needed_cov():
             if q != 'E' and not (c != 'Reaction' and q in ('H', 'G')):
                 need += ['get_XoRT_act | %s | %s' % (q, c), 'get_X_act | %s | %s' % (q, c)]
         need += ['get_XoRT_state, get_delta_XoRT | q | ' + c, 'get_XoRT_act | q | ' + c]
+    need += ['edit: %s | %s' % (w, c) for w in EDITS for c in CLASSES]
     need += ['cycle: %d members' % i for i in range(2, 6)]
     need += ['cycle: closed', 'cycle: with a net reaction', 'cycle: scaled member', 'cycle: spectator in a member',
              'cycle: written reversed, rev=True', 'cycle: written reversed, m<0']
@@ -1047,13 +1149,14 @@ def run(ctx):
         import concurrent.futures as cf
         t0, c0 = time.time(), _cpu()
         variants = (('alias', 'CallerUntouched'), ('prefix', None), ('suffix', None), ('actswap', None),
-                    ('actfallback', 'ActDifference'))
-        with cf.ThreadPoolExecutor(max_workers=8) as ex:
+                    ('actfallback', 'ActDifference'), ('snapshot', 'EditedEqualsFresh'))
+        with cf.ThreadPoolExecutor(max_workers=10) as ex:
             f_route = ex.submit(ctx.model, 'MC_Reaction', ctx.pick('MC_Reaction_route', 'MC_Reaction_route_full'), 6)
             f_alg = ex.submit(ctx.model, 'MC_Reaction', ctx.pick('MC_Reaction', 'MC_Reaction_full'), 8)
             f_var = [ex.submit(ctx.model, 'MC_Reaction', 'MC_Reaction_' + v, 1, False) for v, _ in variants]
+            f_edit = ex.submit(ctx.model, 'MC_Reaction', 'MC_Reaction_edit', 2)
             f_cases = ex.submit(core.tlc_cases, 'MC_Reaction', 'MC_Reaction_cases')
-            f_route.result(), f_alg.result()
+            f_route.result(), f_alg.result(), f_edit.result()
             for (v, inv), f in zip(variants, f_var):
                 r = f.result()
                 if r.ok or r.violated is None or (inv and r.violated != inv):
@@ -1117,7 +1220,7 @@ def run(ctx):
     ctx.coverage['events_skipped_nonfinite'] = skipped
     ctx.coverage['clause_exercise'] = dict(sorted(exercise.items()))
     if ctx.replay_case is None:
-        need = _needed() + ['HessCycle | closed', 'HessCycle | net reaction']
+        need = _needed() + ['HessCycle | closed', 'HessCycle | net reaction'] + ['EditedEqualsFresh | ' + c for c in CLASSES]
         ctx.coverage['input_classes'] = dict(sorted(covered.items()))
         missing = [k for k in _needed_cov() if covered.get(k, 0) == 0]
         # a case in which the library raised cannot report its classes: the Raises violations are the verdict
@@ -1134,6 +1237,8 @@ def run(ctx):
         tags = {'kind': case['kind'], 'cls': ev.get('cls'), 'q': ev.get('q'), 'ev': ev.get('ev')}
         if case['kind'] == 'real':
             tags['built'] = results[tid][2].get('construction', {}).get('how')
+        if ev.get('ev') == 'edit':
+            tags['edit'] = ev.get('what')
         if ev.get('ev') == 'refuse':
             tags['getters'] = ','.join(sorted({g.split('(')[0] for g, o in zip(ev['g'], ev['out']) if o == 'value'}))
         per_clause[clause] = per_clause.get(clause, 0) + 1
